@@ -14,7 +14,8 @@ LEVEL = ("Static structural conditions of the microcanonical sampler: every writ
          "doubled exactly where it is popped, the pop sits in an unwinding loop that is only left with remaining > 0 or an empty stack, and each "
          "successful step decrements the remaining count once (R4). The ESH closed form and the kinetic-energy change as numbers are not decided."
          " Added: the stack of pending step-size levels is per draw (R4); switch_draw is computed from trajectory_switch_fraction and num_tune only (R5)."
-         " Added (round 5): a retry level is pushed only while len < max_halvings (R4 retry-limit); the ESH entry points take the step size as their only scalar and the closed form is unclamped (R1).")
+         " Added (round 5): a retry level is pushed only while len < max_halvings (R4 retry-limit); the ESH entry points take the step size as their only scalar and the closed form is unclamped (R1)."
+         " Added (round 6): the MCLMC presets hand their settings to the chain as set (R7, rules/convert.py); the retry factor scales both half-steps and the position step alike (R8 = C02-R2).")
 EXPLANATION = ("Effect / dominance analysis on the MIR of the Hamiltonian methods and of MclmcChain::{draw, mclmc_kernel}; natural-loop structure of the retry "
                "bookkeeping; symbolic evaluation (rules/kernel.py) of the final loops of CpuMath::esh_momentum_update.")
 TRUSTED = ["rustc nightly MIR/HIR", "nutsfacts extractor", "rules/c18.py", "Math::array_normalize divides by the Euclidean norm (decided for CpuMath by R1's symbolic check)"]
